@@ -729,6 +729,12 @@ class ModuleVistor(NodeVisitor):
             return
 
         if obj is not None:
+            try:
+                docstring.encode('utf-8')
+            except UnicodeEncodeError:
+                # Lone surrogates can't be written to the HTML pages,
+                # show them escaped like extract_docstring() does.
+                docstring = docstring.encode('utf-8', 'backslashreplace').decode('utf-8')
             obj.docstring = docstring
             # TODO: It might be better to not perform docstring parsing until
             #       we have the final docstrings for all objects.
